@@ -12,6 +12,30 @@ CFG = {'p_coarse': 0.0, 'p_periodic': 0.0, 'T': (4, 8), 'n_assets': (1, 4), 'nod
        'kinds': {'SimpleContract': 2, 'Contract': 2, 'Transport': 2, 'Storage': 4, 'MultiCommodityContract': 1, 'ExtendedTransport': 1, 'StructuredAsset': 3}}
 
 
+def near_neutral_specs(seed, n, tag):
+    """a purchase and a sale at one node; in one scenario trading loses a tiny amount per unit (prices 1/100 apart), in the other it
+    earns a lot: the robust solution must not give up worst-case value for average value"""
+    out = []
+    for i in range(n):
+        rng = random.Random('%s/%s/%d' % (seed, tag, i))
+        T = rng.randint(3, 6)
+        g = {'start': '2022-02-01 00:00', 'freq': 'h', 'unit': 'h', 'tz': None, 'T': T}
+        import pandas as pd
+        g['end'] = (pd.Timestamp(g['start']) + pd.Timedelta(hours=T)).strftime('%Y-%m-%d %H:%M')
+        lvl = gen.k8(rng, 20, 60)
+        eps = rng.choice([0.01, 0.005, 0.02])
+        cap = gen.k8(rng, 5, 15)
+        prices = {'p0': [lvl + eps] * T, 'p1': [lvl] * T}
+        assets = [{'kind': 'SimpleContract', 'name': 'buy', 'nodes': ['N0'], 'price': 'p0', 'min_cap': 0.0, 'max_cap': cap},
+                  {'kind': 'SimpleContract', 'name': 'sell', 'nodes': ['N0'], 'price': 'p1', 'min_cap': -cap, 'max_cap': 0.0}]
+        far = {'p0': [lvl * 0.6] * T, 'p1': [lvl * 1.1] * T}
+        near = {'p0': [lvl + eps] * T, 'p1': [lvl] * T}
+        ex = [near, far] if i % 2 else [far, near]
+        out.append({'grid': g, 'prices': prices, 'assets': assets, 'id': '%s%d' % (tag, i), 'seed': '%s/%s/%d' % (seed, tag, i),
+                    'opts': {'slp': {'n': 2, 'kf': 1, 'identical': False, 'explicit': ex, 'robust_without_grid': bool(i % 3)}}})
+    return out
+
+
 def run(ctx):
     if not ctx.proof_gate(THEOREMS, ['SLP.vo', 'SLPProofs.vo', 'Build.vo']):
         return
@@ -20,6 +44,7 @@ def run(ctx):
     # variables that span several steps across the present / future boundary: block orders, contracts on a coarser frequency
     specs += gen.gen_many(ctx.seed, n // 2, dict(CFG, p_coarse=0.5, coarse_any=False, T=(6, 8), freqs=['h'],
                                                  kinds={'SimpleContract': 2, 'Contract': 1, 'Transport': 1, 'Storage': 1, 'OrderBook': 4}), 'c17blk_')
+    specs += near_neutral_specs(ctx.seed, 8 if ctx.tier == 'quick' else 40, 'c17nn_')
     for sp in specs:
         if 'slp' not in sp['opts']:
             rng = random.Random(str(sp['seed']) + '/slp')
@@ -30,6 +55,8 @@ def run(ctx):
                 sp['opts']['slp'].update(ordered=True, identical=False, n=rng.randint(2, 3))
             elif r_ < 0.5:
                 sp['opts']['slp'].update(decades=True, identical=False, n=rng.randint(1, 3))
+            elif r_ < 0.7:
+                sp['opts']['slp'].update(near_neutral=True, identical=False, n=rng.randint(2, 3))
     specs = ctx.specs(specs)
     res = C.run_impl('slp', specs)
     exprs, owners = [], []
